@@ -421,7 +421,11 @@ func newEventFromTrustedJSONWithEventIDV1(eventID string, eventJSON []byte, reda
 		return nil, roomIDErrorOnParse(err, eventJSON, &res.eventFields, roomVersion.Version())
 	}
 
-	res.EventIDRaw = eventID
+	if eventID != "" {
+		// In this event format the event carries its ID: a caller that has no
+		// event ID to give (headered JSON without one, say) gets that one.
+		res.EventIDRaw = eventID
+	}
 	res.eventJSON = eventJSON
 	res.roomVersion = roomVersion.Version()
 	res.redacted = redacted
